@@ -264,9 +264,13 @@ func (cv1 *HookConfigV1) ConvertAndCheck(c *HookConfig) error {
 	// Update IncludeSnapshotsFrom for every binding with a group.
 	// Merge binding's IncludeSnapshotsFrom with snapshots list calculated for group.
 	groupSnapshots := make(map[string][]string)
-	for _, kubeCfg := range c.OnKubernetesEvents {
+	for i, kubeCfg := range c.OnKubernetesEvents {
 		if kubeCfg.Group == "" {
 			continue
+		}
+		// A snapshot is found by its binding name: the name should be unique as in includeSnapshotsFrom.
+		if err := CheckIncludeSnapshots(c.OnKubernetesEvents, kubeCfg.BindingName); err != nil {
+			return fmt.Errorf("invalid kubernetes config [%d]: group '%s': %w", i, kubeCfg.Group, err)
 		}
 		if _, ok := groupSnapshots[kubeCfg.Group]; !ok {
 			groupSnapshots[kubeCfg.Group] = make([]string, 0)
